@@ -108,3 +108,28 @@ Lemma D2_allowed_and_explored :
               [[0%N; 0%N]; [1%N; 0%N]; [1%N; 0%N; 0%N]] = true /\
   mem_outcome o_D2 (explored p_D2 (recs_of p_D2)) = true.
 Proof. vm_compute. repeat split; reflexivity. Qed.
+
+(* D24: yield_now is invisible to DPOR although it constrains scheduling.
+   main: x.fetch_add(1); x.store(5)      t1: yield_now(); x.load()
+   R: t1 can read 1 (yield before the fetch_add, load between the two writes).
+   L (unbounded) never explores it: DPOR reverses the load/store race at the
+   store's point, where t1 first has to yield, which forces main's store. *)
+Definition p_D24 : prog :=
+  mkProg cfg0 [DAtomic 0]
+    [[ISpawn 1; IRmw 0 RAdd 1 SeqCst; IStore 0 5 SeqCst; IJoin 1];
+     [IYield; ILoad 0 SeqCst]].
+Definition o_D24 : outcome :=
+  [[(0, RUnit); (1, RVal 0); (2, RUnit); (3, RUnit)];
+   [(0, RUnit); (1, RVal 1)]].
+Lemma D24_missing : missing p_D24 o_D24 = true.
+Proof. vm_compute. reflexivity. Qed.
+
+(* ... while the run with preemption_bound = 2 explores it (conservative
+   backtrack points): the bounded result set is not a subset of the unbounded one *)
+Definition p_D24_b2 : prog :=
+  mkProg (mkConfig 5 1000 (Some 2) None None false) (p_decls p_D24) (p_bodies p_D24).
+Lemma D24_bounded_not_subset :
+  fin_of p_D24_b2 = RunOk /\ fin_of p_D24 = RunOk /\
+  mem_outcome o_D24 (explored p_D24_b2 (recs_of p_D24_b2)) = true /\
+  mem_outcome o_D24 (explored p_D24 (recs_of p_D24)) = false.
+Proof. vm_compute. repeat split; reflexivity. Qed.
